@@ -421,6 +421,13 @@ class Enc:
                 self.decl("lim_pick", "Bool")
             lim = "true" if limit is None else f"(> {self.atom(limit, row)} 0)"
             return f"(and {self.cond(inner, row)} lim_pick {lim})"
+        # sqlite compares values of different storage classes by class (INTEGER < TEXT < BLOB):
+        # a parameter whose home column (VALUES / SET position) is text or blob, compared with an
+        # integer column, is never equal to it and always greater.
+        for x, y, flip in ((c[1], c[2], False), (c[2], c[1], True)):
+            if x[0] == "col" and x[1] != "rowid" and self.col_is_int(x[1]) and y[0] == "param" and self.phome.get(y[1]) in ("text", "blob"):
+                o = op if not flip else {"<": ">", "<=": ">=", ">": "<", ">=": "<=", "=": "=", "!=": "!="}[op]
+                return {"<": "true", "<=": "true", ">": "false", ">=": "false", "=": "false", "!=": "true"}[o]
         a, b = self.atom(c[1], row), self.atom(c[2], row)
         if op == "=":
             return f"(= {a} {b})"
@@ -432,6 +439,11 @@ class Enc:
         st = self.st
         for i in range(1, st["nparams"] + 1):
             self.decl(f"p{i}")
+        # home type of each parameter: the type of the column it is stored into (VALUES / SET)
+        self.phome = {}
+        for c, v in list(zip(st.get("cols", []), st.get("vals", []))) + list(st.get("set", [])):
+            if v[0] == "param" and c in self.types:
+                self.phome.setdefault(v[1], self.types[c])
         # which params are integers: those compared with / assigned to integer columns
         pint = set()
 
@@ -446,7 +458,7 @@ class Enc:
                     pint.add(c[4][1])
                 return
             for x, y in ((c[1], c[2]), (c[2], c[1])):
-                if x[0] == "param" and y[0] == "col" and (y[1] == "rowid" or self.col_is_int(y[1])):
+                if x[0] == "param" and y[0] == "col" and (y[1] == "rowid" or self.col_is_int(y[1])) and self.phome.get(x[1]) not in ("text", "blob"):
                     pint.add(x[1])
         scan(st.get("where"))
         for c, v in zip(st.get("cols", []), st.get("vals", [])):
